@@ -72,8 +72,26 @@ def glob_match(pat, rel):
     return pat == rel
 
 
-def present_files(ws, extra=None):
+def real_path(ws, p):
+    """the real file behind a path that goes through a symlinked directory of the workspace"""
+    for lk, tg in ws.get("links", {}).items():
+        if p.startswith(lk + "/"):
+            return tg + p[len(lk):]
+    return p
+
+
+def all_files(ws):
+    """source files incl. the paths under which they are also visible through symlinked directories"""
     files = dict(ws["files"])
+    for lk, tg in ws.get("links", {}).items():
+        for p, c in ws["files"].items():
+            if p.startswith(tg + "/"):
+                files[lk + p[len(tg):]] = c
+    return files
+
+
+def present_files(ws, extra=None):
+    files = all_files(ws)
     if extra:
         files.update(extra)
     return files
@@ -190,17 +208,23 @@ def cmd_text(ws, l):
     if t.get("raw"):
         return "printf '%s\\n' " + q(l) + ' >> "$VERIF_TRACE"\n' + t["raw"]
     L = [": " + q(t["salt"]), "printf '%s\\n' " + q(l) + ' >> "$VERIF_TRACE"']
-    if t.get("beh", 0) == 1:
+    beh = t.get("beh", 0)
+    if beh == 1:
         L.append("exit 3")
-    if t.get("beh", 0) == 2:
+    if beh == 2:
         L.append("sleep 3")
+    if beh >= 3:
+        # the script ENDS with a statement whose failure `set -e` does not turn into an abort (or a subshell / child exit):
+        # the exit status of the script is the status of that last statement
+        L.append({3: "false && true", 4: "! true", 5: "(exit 3)", 6: "sh -c 'exit 4'"}.get(beh, "exit 5"))
+        return "\n".join(L)
     L.append('W="$GROG_WORKSPACE_ROOT"')
     L.append('c="$(mktemp)"')
     lst = []
     for g in t["globs"]:
         if "**" in g:
             base, _, tail = g.partition("/**/")
-            lst.append("find " + q(base) + " -type f -name " + q(tail) + " 2>/dev/null || true")
+            lst.append("find -L " + q(base) + " -type f -name " + q(tail) + " 2>/dev/null || true")
         elif any(ch in g for ch in "*?["):
             lst.append("ls -1 " + g + " 2>/dev/null || true")
         else:
@@ -236,12 +260,17 @@ def cmd_text(ws, l):
             L.append('rm -rf ' + D + '"; mkdir -p ' + D + '/sub"')
             L.append("{ " + hdr + '; cat "$c"; } > ' + D + '/a.txt"')
             L.append("{ " + hdr + '; cat "$c"; printf \'+\\n\'; } > ' + D + '/sub/b.txt"')
+            if p.endswith("bulk"):
+                L.append('mkdir -p ' + D + '/many"; for i in $(seq -w 0 599); do printf \'%s\\n\' "$i" > ' + D + '/many/k$i"; done')
+            L.append(': > ' + D + '/empty.txt"')
             L.append('ln -s a.txt ' + D + '/link"')
             L.append('if [ -s "$c.l" ]; then mkdir -p ' + D + '/in"; fi')
             L.append('while IFS= read -r f; do cat "$f" > ' + D + '/in/$(printf \'%s\' "' + pre + '$f" | tr / _)"; done < "$c.l"')
         else:
             L.append('mkdir -p "$(dirname "$W/' + p + '")"')
             normal = "{ " + hdr + '; cat "$c"; } > "$W/' + p + '"'
+            if p.endswith(".empty"):
+                normal = ': > "$W/' + p + '"'         # a stamp: legitimately empty output
             if t.get("split"):
                 # splitter: output k is a copy of input (k mod n); the order of outputs is the canonical (sorted) one
                 L.append('if [ "$n" -gt 0 ]; then f=$(sed -n "$(( ' + str(k) + ' % n + 1 ))p" "$c.l"); { printf \'S\\n\'; cat "$f"; } > "$W/' + p +
@@ -255,16 +284,20 @@ def cmd_text(ws, l):
 
 
 def check_cmd(chk):
+    f = '"$GROG_WORKSPACE_ROOT/' + chk["flag"] + '"'
+    form = chk.get("form", 0)
     if chk["exp"] is None:
-        return {"command": 'test -f "$GROG_WORKSPACE_ROOT/' + chk["flag"] + '"'}
-    return {"command": 'cat "$GROG_WORKSPACE_ROOT/' + chk["flag"] + '"', "expected_output": chk["exp"].strip()}
+        # shell-level variety: a failing non-final element of an && list and a negated pipeline do not trigger `set -e`;
+        # the status of the check is the status of that last statement
+        return {"command": {0: "test -f " + f, 1: "test -f " + f + " && true", 2: "! test ! -f " + f}[form % 3]}
+    return {"command": {0: "cat " + f, 1: "test -f " + f + " && cat " + f}[form % 2], "expected_output": chk["exp"].strip()}
 
 
 def build_files(ws):
     """BUILD.json text per package"""
     pk = {}
     for l, t in sorted(ws["targets"].items()):
-        d = {"name": t["name"], "command": cmd_text(ws, l)}
+        d = {"name": t["name"]} if t.get("nocmd") else {"name": t["name"], "command": cmd_text(ws, l)}
         if t["globs"]:
             d["inputs"] = list(t["globs"])
         if t.get("excl"):
@@ -299,8 +332,27 @@ def write_file(root, rel, content):
         fh.write(content.encode("latin-1"))
 
 
+def sync_links(root, old, new):
+    ol, nl = (old.get("links", {}) if old else {}), new.get("links", {})
+    for lk in set(ol) - set(nl):
+        try:
+            os.remove(os.path.join(root, lk))
+        except OSError:
+            pass
+    for lk, tg in nl.items():
+        full = os.path.join(root, lk)
+        if ol.get(lk) == tg and os.path.islink(full):
+            continue
+        os.makedirs(os.path.dirname(full), exist_ok=True)
+        if os.path.islink(full):
+            os.remove(full)
+        os.makedirs(os.path.join(root, tg), exist_ok=True)
+        os.symlink(os.path.relpath(os.path.join(root, tg), os.path.dirname(full)), full)
+
+
 def sync_ws(root, old, new):
     """bring the source side of the real workspace from `old` (or nothing) to `new`"""
+    sync_links(root, old, new)
     ob, nb = (build_files(old) if old else {}), build_files(new)
     of, nf = (old["files"] if old else {}), new["files"]
     for p in set(ob) - set(nb) | set(of) - set(nf):
@@ -446,6 +498,22 @@ def cache_dir(root_dir):
     return None
 
 
+def cas_snapshot(root_dir):
+    """name -> sha256 of the content of every blob in the local CAS (a content-addressed entry never changes once written)"""
+    c = cache_dir(root_dir)
+    out = {}
+    d = os.path.join(c, "cas") if c else None
+    if d and os.path.isdir(d):
+        for fn in os.listdir(d):
+            fp = os.path.join(d, fn)
+            if os.path.isfile(fp) and not fn.startswith("tmp-"):
+                try:
+                    out[fn] = hashlib.sha256(open(fp, "rb").read()).hexdigest()
+                except OSError:
+                    pass
+    return out
+
+
 def taints(root_dir):
     c = cache_dir(root_dir)
     out = []
@@ -458,7 +526,7 @@ def taints(root_dir):
 
 
 def build_args(step, force_minimal=None):
-    minimal = step.get("minimal", False) if force_minimal is None else force_minimal
+    minimal = step.get("minimal", False) if (force_minimal is None or step.get("pin_mode")) else force_minimal
     a = ["build"] + list(step["patterns"])
     a.append("--load-outputs=" + ("minimal" if minimal else "all"))
     if not step.get("enable_cache", True):
@@ -473,6 +541,8 @@ def run_real(grog, hist, base, force_minimal=None, upto=None):
     shutil.rmtree(base, ignore_errors=True)
     base = os.path.realpath(base)
     nmoved = 0
+    cas_seen = {}
+    audit_names = True
     wsdir, root_dir, trace = os.path.join(base, "ws"), os.path.join(base, "root"), os.path.join(base, "trace")
     os.makedirs(wsdir)
     os.makedirs(root_dir)
@@ -511,12 +581,26 @@ def run_real(grog, hist, base, force_minimal=None, upto=None):
                     os.remove(os.path.join(c, "cas", dig))
                 except FileNotFoundError:
                     pass
+        elif s["k"] == "run":
+            # `grog run <targets>`: builds the run targets, then starts their bin outputs; lines the binaries print that start
+            # with RUN: are the observation
+            mode = s.get("minimal", False) if (force_minimal is None or s.get("pin_mode")) else force_minimal
+            rc, out = run_grog(grog, wsdir, root_dir, trace, ["run", "--load-outputs=" + ("minimal" if mode else "all")] + list(s["targets"]))
+            ex, pos = read_trace(trace, pos)
+            obs.append({"ok": rc == 0, "rc": rc, "executed": ex, "fs": {p: read_path(wsdir, p) for p in watch}, "pre": {}, "pre_tainted": [],
+                        "cas_rewritten": [], "cas_misnamed": [], "tainted": taints(root_dir), "log": out[-1500:],
+                        "run_out": sorted(x for x in out.split("\n") if x.startswith("RUN:"))})
         elif s["k"] == "build":
             pre = {p: read_path(wsdir, p) for p in watch}
             pre_taint = taints(root_dir)
             rc, out = run_grog(grog, wsdir, root_dir, trace, build_args(s, force_minimal))
             ex, pos = read_trace(trace, pos)
+            cas_now = cas_snapshot(root_dir)
+            rewritten = sorted(n for n, d in cas_now.items() if n in cas_seen and cas_seen[n] != d)
+            misnamed = sorted(n for n, d in cas_now.items() if hist.get("algo") == "sha256" and n != d) if audit_names else []
+            cas_seen.update(cas_now)
             obs.append({"ok": rc == 0, "rc": rc, "executed": ex, "fs": {p: read_path(wsdir, p) for p in watch},
+                        "cas_rewritten": rewritten, "cas_misnamed": misnamed,
                         "pre": pre, "pre_tainted": pre_taint,
                         "tainted": taints(root_dir), "log": out[-1500:]})
     return obs
@@ -560,14 +644,15 @@ def model_request(hist, fixes=ALL_FIXES, force_minimal=None):
     ws = hist["ws"]
     watch = watch_paths(hist)
     steps = [{"k": "edit", "targets": model_targets(ws, fixes), "writes": [], "tampers": []}]
-    files = [[p, c] for p, c in sorted(ws["files"].items())]
+    files = [[p, c] for p, c in sorted(all_files(ws).items())]
     for s in hist["steps"]:
         if s["k"] == "edit":
             writes = []
-            for p in set(ws["files"]) - set(s["ws"]["files"]):
+            fa, fb = all_files(ws), all_files(s["ws"])
+            for p in set(fa) - set(fb):
                 writes.append([p, None])
-            for p, c in s["ws"]["files"].items():
-                if ws["files"].get(p) != c:
+            for p, c in fb.items():
+                if fa.get(p) != c:
                     writes.append([p, c])
             for w in s.get("writes", []):
                 if isinstance(w, dict):
@@ -586,7 +671,7 @@ def model_request(hist, fixes=ALL_FIXES, force_minimal=None):
         elif s["k"] == "drop":
             steps.append({"k": "drop", "path": s["path"]})
         elif s["k"] == "build":
-            minimal = s.get("minimal", False) if force_minimal is None else force_minimal
+            minimal = s.get("minimal", False) if (force_minimal is None or s.get("pin_mode")) else force_minimal
             steps.append({"k": "build", "enableCache": s.get("enable_cache", True), "minimal": minimal,
                           "order": selected(ws, s["patterns"]), "watch": watch, "labels": sorted(ws["targets"])})
     return {"op": "build.simulate", "fx": {k: fixes[k] for k in ("gateChecks", "syncTaint", "rerunOnce", "minValidate", "loadFault")},
@@ -622,7 +707,7 @@ def run_real_many(grog, hists, scratch, par=4, force_minimal=None, prefix="h"):
 
 
 def build_steps(hist):
-    return [s for s in hist["steps"] if s["k"] == "build"]
+    return [s for s in hist["steps"] if s["k"] in ("build", "run")]
 
 
 def compare(hist, real, model, multiset=True):
@@ -658,10 +743,10 @@ def compare(hist, real, model, multiset=True):
 # ------------------------------------------------------------------------------------------------
 
 def gen_ws(rng, n=None, aliases=True, dirs=True, multi_out=True, nocache_p=0.0, checks_p=0.0, split_p=0.1, shared_p=0.25, dir_p=0.3,
-           outless_p=0.08, tool_p=0.0, multicheck=False, alias_p=0.35, alias2_p=0.2):
+           outless_p=0.08, tool_p=0.0, multicheck=False, alias_p=0.35, alias2_p=0.2, link_p=0.5, kind_choices=None, stamp_p=0.2):
     """layered DAG of n targets (dependencies point to earlier targets), 1-2 targets per package"""
     n = n or rng.randint(2, 6)
-    ws = {"targets": {}, "aliases": {}, "files": {}}
+    ws = {"targets": {}, "aliases": {}, "files": {}, "links": {}}
     labels = []
     pkgs = []
     for i in range(n):
@@ -673,7 +758,7 @@ def gen_ws(rng, n=None, aliases=True, dirs=True, multi_out=True, nocache_p=0.0, 
         name = "t%d" % i
         l = lab(pkg, name)
         globs = []
-        kind = rng.choice(["star", "src", "rec", "explicit", "none", "star+explicit"])
+        kind = rng.choice(kind_choices or ["star", "src", "rec", "explicit", "none", "star+explicit"])
         nm = "i%d" % i
         if kind in ("star", "star+explicit"):
             globs.append(nm + "_*.in")
@@ -687,6 +772,11 @@ def gen_ws(rng, n=None, aliases=True, dirs=True, multi_out=True, nocache_p=0.0, 
             globs.append("src%d/**/*.in" % i)
             ws["files"]["%s/src%d/f0.in" % (pkg, i)] = "v%d\n" % rng.randint(0, 99)
             ws["files"]["%s/src%d/d/f1.in" % (pkg, i)] = "v%d\n" % rng.randint(0, 99)
+        if kind == "rec" and rng.random() < link_p:
+            # part of the tree under the glob is a symlinked directory (its files live elsewhere in the workspace)
+            ws.setdefault("links", {})["%s/src%d/lk" % (pkg, i)] = "shared%d" % i
+            ws["files"]["shared%d/g0.in" % i] = "v%d\n" % rng.randint(0, 99)
+            ws["files"]["shared%d/sub/g1.in" % i] = "v%d\n" % rng.randint(0, 99)
         if kind in ("explicit", "star+explicit"):
             globs.append("e%d.txt" % i)
             ws["files"]["%s/e%d.txt" % (pkg, i)] = "v%d\n" % rng.randint(0, 99)
@@ -716,6 +806,8 @@ def gen_ws(rng, n=None, aliases=True, dirs=True, multi_out=True, nocache_p=0.0, 
                 outs.append({"dir": False, "rel": "o%d_b.txt" % i})
             if dirs and rng.random() < dir_p:
                 outs.append({"dir": True, "rel": "dist%d" % i})
+            if rng.random() < stamp_p:
+                outs.append({"dir": False, "rel": "done%d.empty" % i})
         t = {"pkg": pkg, "name": name, "globs": globs, "excl": excl, "salt": "s%d" % rng.randint(0, 9), "deps": deps,
              "outs": outs, "fp": {}, "nocache": rng.random() < nocache_p, "checks": [], "beh": 0, "skip": [], "sets": []}
         if rng.random() < 0.15:
@@ -726,7 +818,7 @@ def gen_ws(rng, n=None, aliases=True, dirs=True, multi_out=True, nocache_p=0.0, 
             for ci in range(nchk):
                 flag = "ext/%s%s.flag" % (name, "" if ci == 0 else "_%d" % ci)
                 exp = rng.choice([None, "ok\n"])
-                t["checks"].append({"flag": flag, "exp": exp})
+                t["checks"].append({"flag": flag, "exp": exp, "form": rng.randint(0, 5)})
                 if own:
                     t["sets"].append([flag, "ok\n"])
                 else:
@@ -773,7 +865,8 @@ def gen_ws(rng, n=None, aliases=True, dirs=True, multi_out=True, nocache_p=0.0, 
 def src_files_of(ws, l):
     t = ws["targets"][l]
     pre = t["pkg"] + "/" if t["pkg"] else ""
-    return [pre + r for r in resolved_inputs(ws, l) if pre + r in ws["files"]]
+    af = all_files(ws)
+    return [pre + r for r in resolved_inputs(ws, l) if pre + r in af]
 
 
 def gen_edit(rng, ws, kinds=None):
@@ -783,12 +876,12 @@ def gen_edit(rng, ws, kinds=None):
     l = rng.choice(labels)
     t = ws["targets"][l]
     kinds = kinds or ["content", "content", "addfile", "rmfile", "rename", "salt", "salt", "outs", "fp", "adddep", "rmdep",
-                      "realias", "viaalias", "nocache", "swapin", "exclfile"]
+                      "realias", "viaalias", "nocache", "swapin", "exclfile", "linkfile"]
     k = rng.choice(kinds)
     pre = t["pkg"] + "/" if t["pkg"] else ""
     srcs = src_files_of(ws, l)
     if k == "content" and srcs:
-        p = rng.choice(srcs)
+        p = real_path(ws, rng.choice(srcs))
         if rng.random() < 0.06:
             n = rng.choice([1023, 1024, 4097, 65537])
             ws["files"][p] = "B" * n + "%d\n" % rng.randint(0, 9)
@@ -806,13 +899,15 @@ def gen_edit(rng, ws, kinds=None):
                 ws["files"][pre + base] = "a%d\n" % rng.randint(0, 99)
                 return ws, [], "add %s" % (pre + base)
     if k == "rmfile" and len(srcs) > 0:
-        p = rng.choice(srcs)
+        p = real_path(ws, rng.choice(srcs))
         del ws["files"][p]
         if p[len(pre):] in t["globs"]:
             return None
         return ws, [], "remove %s" % p
     if k == "rename" and srcs:
         p = rng.choice(srcs)
+        if p not in ws["files"]:
+            return None
         if p[len(pre):] in t["globs"] or "*" not in "".join(t["globs"]):
             return None
         d, _, fn = p.rpartition("/")
@@ -879,18 +974,39 @@ def gen_edit(rng, ws, kinds=None):
             d = resolve_alias(ws, a)
             s = src_files_of(ws, d)
             if s:
-                p = rng.choice(s)
+                p = real_path(ws, rng.choice(s))
                 ws["files"][p] = "z%d\n" % rng.randint(100, 999)
                 return ws, [], "content of %s (reaches %s only through alias %s)" % (p, x, a)
             ws["targets"][d]["salt"] = "s%d" % rng.randint(100, 199)
             return ws, [], "command of %s (reaches %s through alias %s)" % (d, x, a)
+        return None
+    if k == "linkfile":
+        # content / presence of a file that a glob reaches only through a symlinked directory
+        lks = sorted(ws.get("links", {}).items())
+        if not lks:
+            return None
+        lk, tg = rng.choice(lks)
+        under = sorted(p for p in ws["files"] if p.startswith(tg + "/"))
+        r = rng.random()
+        if r < 0.6 and under:
+            p = rng.choice(under)
+            ws["files"][p] = "k%d\n" % rng.randint(100, 999)
+            return ws, [], "content of %s (matched through the symlinked directory %s)" % (p, lk)
+        if r < 0.8:
+            p = "%s/n%d.in" % (tg, rng.randint(0, 99))
+            ws["files"][p] = "a%d\n" % rng.randint(0, 99)
+            return ws, [], "add %s (visible through %s)" % (p, lk)
+        if len(under) > 1:
+            p = rng.choice(under)
+            del ws["files"][p]
+            return ws, [], "remove %s (visible through %s)" % (p, lk)
         return None
     if k == "swapin":
         sp = [x for x in labels if ws["targets"][x].get("split")]
         if not sp:
             return None
         x = rng.choice(sp)
-        fsx = src_files_of(ws, x)
+        fsx = [real_path(ws, y) for y in src_files_of(ws, x)]
         if len(fsx) < 2 or ws["files"][fsx[0]] == ws["files"][fsx[1]]:
             return None
         ws["files"][fsx[0]], ws["files"][fsx[1]] = ws["files"][fsx[1]], ws["files"][fsx[0]]
@@ -932,7 +1048,7 @@ def gen_edit(rng, ws, kinds=None):
         ws["files"][f] = "ok\n" if k == "flagon" else "no\n"
         return ws, [], ("establish" if k == "flagon" else "spoil") + " external condition %s" % f
     if k == "beh":
-        t["beh"] = rng.choice([1, 1, 2, 2]) if t.get("beh", 0) == 0 else 0
+        t["beh"] = rng.choice([1, 2, 2, 3, 3, 4, 4, 5, 6]) if t.get("beh", 0) == 0 else 0
         return ws, [], "behaviour of %s := %d" % (l, t["beh"])
     if k == "skipout":
         if t.get("skip"):
@@ -972,7 +1088,7 @@ def gen_edit(rng, ws, kinds=None):
         if t.get("checks"):
             t["checks"] = []
             return ws, [], "remove checks of %s" % l
-        t["checks"] = [{"flag": flag, "exp": rng.choice([None, "ok\n"])}]
+        t["checks"] = [{"flag": flag, "exp": rng.choice([None, "ok\n"]), "form": rng.randint(0, 5)}]
         return ws, [], "add check to %s" % l
     return None
 
@@ -1003,7 +1119,7 @@ def gen_tamper(rng, ws, kinds=("delete", "modify", "rmdir", "moddir", "extradir"
 def shift_pair(rng, ws):
     """adversarial: move bytes from the end of one input file to the start of the next one of the same target"""
     for l in sorted(ws["targets"]):
-        s = src_files_of(ws, l)
+        s = [x for x in src_files_of(ws, l) if x in ws["files"]]
         if len(s) >= 2:
             a, b = s[0], s[1]
             ws2 = copy.deepcopy(ws)
@@ -1023,6 +1139,8 @@ def gen_history(rng, family="mixed", nsteps=None, full=False, minimal=None):
         kw["nocache_p"] = 0.3
     if family == "checks":
         kw.update(checks_p=0.6, multicheck=True, multi_out=True, dir_p=0.5)
+    if family == "taintfail":
+        kw.update(checks_p=0.7, multicheck=False)
     if family in ("outless", "taintdis"):
         kw.update(outless_p=0.4, nocache_p=0.25)
     if family == "tool":
@@ -1033,6 +1151,10 @@ def gen_history(rng, family="mixed", nsteps=None, full=False, minimal=None):
         kw.update(shared_p=1.0)
     if family == "dirs":
         kw.update(dir_p=0.8)
+    if family == "fanout":
+        kw.update(n=rng.randint(3, 4), dir_p=0.0, split_p=0.0, shared_p=0.0)
+    if family == "links":
+        kw.update(link_p=1.0, kind_choices=["rec", "rec", "rec", "src", "star"])
     if family == "aliaswipe":
         kw.update(alias_p=0.8, alias2_p=0.6)
     if family == "lostblob":
@@ -1057,6 +1179,32 @@ def gen_history(rng, family="mixed", nsteps=None, full=False, minimal=None):
                 ws["aliases"][a1] = d
                 ws["aliases"][a2] = a1
                 ws["targets"][x]["deps"] = [y for y in ws["targets"][x]["deps"] if resolve_alias(ws, y) != d and y != d] + [a2]
+    if family == "fanout":
+        # one dependency with a bulky directory output (loading it takes a while) and several direct dependants
+        order = sorted(ws["targets"], key=lambda x: int(ws["targets"][x]["name"][1:]))
+        d = order[0]
+        dt = ws["targets"][d]
+        dt["nocache"] = False
+        dt["split"] = False
+        dt["outs"] = [o for o in dt["outs"] if not o["dir"]][:1] + [{"dir": True, "rel": "dist%sbulk" % dt["name"][1:]}]
+        for x in order[1:]:
+            ws["targets"][x]["nocache"] = False
+            if d not in rdeps(ws, x):
+                ws["targets"][x]["deps"].append(d)
+    if family == "samehash":
+        order = sorted(ws["targets"], key=lambda x: int(ws["targets"][x]["name"][1:]))
+        top = order[-1]
+        base = len(order)
+        for j in range(3):
+            name = "t%d" % (base + j)
+            pkg = "g%d" % j
+            ws["files"]["%s/e%d.txt" % (pkg, base + j)] = "v%d\n" % rng.randint(0, 99)
+            ws["targets"][lab(pkg, name)] = {"pkg": pkg, "name": name, "globs": ["e%d.txt" % (base + j)], "excl": [], "salt": "s1", "deps": [],
+                                            "outs": [], "fp": {}, "nocache": True, "checks": [], "beh": 0, "skip": [], "sets": []}
+        ws["targets"][top]["deps"] += [lab("g0", "t%d" % base), lab("g1", "t%d" % (base + 1))]
+        ws["targets"][top]["nocache"] = False
+        if not ws["targets"][top]["outs"]:
+            ws["targets"][top]["outs"] = [{"dir": False, "rel": "o%s.txt" % ws["targets"][top]["name"][1:]}]
     if family == "lostblob":
         # a chain e <- d <- x (all cached, file outputs): the blob of d's output will be lost
         order = sorted(ws["targets"], key=lambda x: int(ws["targets"][x]["name"][1:]))
@@ -1116,7 +1264,7 @@ def gen_history(rng, family="mixed", nsteps=None, full=False, minimal=None):
         st.update(fl)
         hist["steps"].append(st)
     build(["//..."] if rng.random() < 0.7 else None)
-    n = nsteps or rng.randint(2, 5)
+    n = nsteps or (rng.randint(5, 7) if family == "revert" else 2 if family == "fanout" else rng.randint(2, 5))
     if family == "cutoff":
         for _ in range(n):
             e = gen_edit(rng, cur, ["fp"])
@@ -1126,6 +1274,89 @@ def gen_history(rng, family="mixed", nsteps=None, full=False, minimal=None):
         return hist
     for _ in range(n):
         r = rng.random()
+        if family == "taintfail" and r < 0.75:
+            # a tainted target runs but FAILS (its checked condition is gone / its command fails); the taint must survive
+            # that run: after the cause is removed the target has to run again although its old cache entry is valid
+            order_ = sorted(cur["targets"], key=lambda x: int(cur["targets"][x]["name"][1:]))
+            roots = [x for x in order_ if not rdeps(cur, x) and not cur["targets"][x].get("nocache")]
+            if roots:
+                x = rng.choice(roots)
+                ext = [c["flag"] for c in cur["targets"][x].get("checks", []) if c["flag"] in cur["files"]
+                       and not any(c["flag"] == p_ for p_, _ in cur["targets"][x].get("sets", []))]
+                hist["steps"].append({"k": "taint", "patterns": [x]})
+                if ext and rng.random() < 0.6:
+                    f = rng.choice(ext)
+                    keep = cur["files"][f]
+                    off = copy.deepcopy(cur)
+                    del off["files"][f]
+                    hist["steps"].append({"k": "edit", "ws": off, "writes": [[f, None]], "what": "destroy external condition %s" % f})
+                    build(["//..."])
+                    on = copy.deepcopy(off)
+                    on["files"][f] = keep
+                    hist["steps"].append({"k": "edit", "ws": on, "writes": [], "what": "establish external condition %s" % f})
+                    cur = on
+                else:
+                    bad = copy.deepcopy(cur)
+                    bad["targets"][x]["beh"] = rng.choice([1, 3, 4])
+                    hist["steps"].append({"k": "edit", "ws": bad, "writes": [], "what": "behaviour of %s := %d (fails)" % (x, bad["targets"][x]["beh"])})
+                    build(["//..."])
+                    hist["steps"].append({"k": "edit", "ws": cur, "writes": [], "what": "behaviour of %s := 0 again" % x})
+                versions.append(cur)
+                build(["//..."])
+                if rng.random() < 0.5:
+                    build(["//..."])
+                continue
+        if family == "fanout":
+            # fresh checkout + every dependant edited: they all re-run at once and all need the cached dependency's outputs
+            order_ = sorted(cur["targets"], key=lambda x: int(cur["targets"][x]["name"][1:]))
+            writes = [[pth, None] for pth in sorted(all_out_paths(cur))]
+            hist["steps"].append({"k": "edit", "ws": cur, "writes": writes, "what": "tamper: wipe all declared outputs"})
+            e2 = copy.deepcopy(cur)
+            for x in order_[1:]:
+                e2["targets"][x]["salt"] = "s%d" % rng.randint(500, 599)
+            hist["steps"].append({"k": "edit", "ws": e2, "writes": [], "what": "command of every dependant of %s" % order_[0]})
+            cur = e2
+            versions.append(cur)
+            build(["//..."])
+            continue
+        if family == "samehash" and r < 0.7:
+            # add / remove ONE of several dependencies whose output hashes are equal (output-less no-cache targets)
+            gs = sorted(x for x in cur["targets"] if cur["targets"][x]["pkg"].startswith("g") and not cur["targets"][x]["outs"])
+            tops = [x for x in sorted(cur["targets"]) if any(d in gs for d in cur["targets"][x]["deps"])]
+            if gs and tops:
+                x = tops[0]
+                e2 = copy.deepcopy(cur)
+                have = [d for d in e2["targets"][x]["deps"] if d in gs]
+                missing = [d for d in gs if d not in have]
+                if missing and (len(have) <= 1 or rng.random() < 0.5):
+                    d = rng.choice(missing)
+                    e2["targets"][x]["deps"].append(d)
+                    what = "add edge %s -> %s (output hash equal to another dependency's)" % (x, d)
+                else:
+                    d = rng.choice(have)
+                    e2["targets"][x]["deps"].remove(d)
+                    what = "remove edge %s -> %s (output hash equal to another dependency's)" % (x, d)
+                hist["steps"].append({"k": "edit", "ws": e2, "writes": [], "what": what})
+                cur = e2
+                versions.append(cur)
+                build(["//..."])
+                continue
+        if family == "revert":
+            # edit / revert chains over one cache (>= 5 builds): an earlier state comes back after other states were built,
+            # with cache-disabled builds in between
+            rr = rng.random()
+            if rr < 0.45 and len(versions) >= 2:
+                cur = rng.choice(versions[:-1])
+                versions.append(cur)
+                hist["steps"].append({"k": "edit", "ws": cur, "writes": [], "what": "revert sources to an earlier version"})
+            else:
+                e = gen_edit(rng, cur, ["content", "content", "salt", "addfile"])
+                if e and wf(e[0]):
+                    hist["steps"].append({"k": "edit", "ws": e[0], "writes": e[1], "what": e[2]})
+                    cur = e[0]
+                    versions.append(cur)
+            build(["//..."], enable_cache=(rng.random() >= 0.25))
+            continue
         if family == "lostblob":
             order = sorted(cur["targets"], key=lambda x: int(cur["targets"][x]["name"][1:]))
             mid = rng.choice(order[1:-1]) if len(order) > 2 else order[0]
@@ -1305,6 +1536,8 @@ def gen_history(rng, family="mixed", nsteps=None, full=False, minimal=None):
             kinds = None
             if family in ("alias", "aliaswipe"):
                 kinds = ["viaalias", "viaalias", "realias", "adddep", "content"]
+            if family == "links":
+                kinds = ["linkfile", "linkfile", "linkfile", "content", "salt"]
             if family == "tool":
                 kinds = ["toolcontent", "toolcontent", "toolcontent", "content", "salt"]
             if family == "swap":
@@ -1364,6 +1597,8 @@ def describe(hist):
             out.append("drop-blob " + s["path"])
         elif s["k"] == "relocate":
             out.append("relocate workspace (same cache)")
+        elif s["k"] == "run":
+            out.append("run " + " ".join(s["targets"]) + (" minimal" if s.get("minimal") else ""))
         else:
             fl = ("" if s.get("enable_cache", True) else " --enable-cache=false") + (" minimal" if s.get("minimal") else "") + \
                  (" --fail-fast" if s.get("fail_fast") else "")
@@ -1409,6 +1644,96 @@ def gen_swap(rng, nocache=True):
     return {"ws": ws, "algo": rng.choice(["xxh3", "sha256"]),
             "steps": [dict(b), {"k": "edit", "ws": ws2, "writes": [], "what": "swap contents of pa/x.in and pa/y.in"}, dict(b)],
             "tags": ["swap", "oracle-only"]}
+
+
+def gen_collector(rng):
+    """command-less collector: gen_a -> dist/a.txt, gen_b -> dist/b.txt, bundle (NO command, deps gen_a gen_b, own input manifest)
+    declares dir::dist, site reads the bundle. (Overlapping outputs are legal between targets ordered by a dependency.)"""
+    va, vb = rng.randint(0, 99), rng.randint(0, 99)
+    ws = {"targets": {}, "aliases": {}, "links": {},
+          "files": {"pc/a.src": "A%d\n" % va, "pc/b.src": "B%d\n" % vb, "pc/manifest.txt": "m0\n"}}
+    ws["targets"]["//pc:gen_a"] = raw_target("pc", "gen_a", ["a.src"], [], ["dist/a.txt"], "mkdir -p dist; cat a.src > dist/a.txt")
+    ws["targets"]["//pc:gen_b"] = raw_target("pc", "gen_b", ["b.src"], [], ["dist/b.txt"], "mkdir -p dist; cat b.src > dist/b.txt")
+    bundle = raw_target("pc", "bundle", ["manifest.txt"], ["//pc:gen_a", "//pc:gen_b"], [], "")
+    bundle["outs"] = [{"dir": True, "rel": "dist"}]
+    bundle["nocmd"] = True
+    ws["targets"]["//pc:bundle"] = bundle
+    ws["targets"]["//ps:site"] = raw_target("ps", "site", [], ["//pc:bundle"], ["site.txt"], "cat ../pc/dist/a.txt ../pc/dist/b.txt > site.txt")
+    b = {"k": "build", "patterns": ["//..."], "minimal": False, "enable_cache": True, "fail_fast": False}
+    steps = [dict(b)]
+    cur = ws
+
+    def edit(f, c, what, writes=()):
+        nonlocal cur
+        w2 = copy.deepcopy(cur)
+        w2["files"][f] = c
+        steps.append({"k": "edit", "ws": w2, "writes": list(writes), "what": what})
+        cur = w2
+    edit("pc/a.src", "A%d\n" % (va + 100), "content of pc/a.src")
+    steps.append(dict(b))
+    edit("pc/a.src", "A%d\n" % va, "content of pc/a.src back to the first version")
+    edit("pc/manifest.txt", "m1\n", "content of pc/manifest.txt (the command-less collector must be rebuilt)")
+    steps.append(dict(b))
+    if rng.random() < 0.7:
+        wipe = [["pc/dist", None], ["ps/site.txt", None]]
+        steps.append({"k": "edit", "ws": cur, "writes": wipe, "what": "tamper: wipe all declared outputs"})
+        edit("pc/manifest.txt", "m2\n", "content of pc/manifest.txt")
+        steps.append(dict(b))
+    return {"ws": ws, "algo": rng.choice(["xxh3", "sha256"]), "steps": steps, "tags": ["collector", "oracle-only"]}
+
+
+def gen_runchain(rng):
+    """`grog run` of generated binaries: data -> a (bin, prints data's output at run time) -> b (bin); histories of
+    `grog run //:a //:b` / `grog run //:a` with reverts, wipes and edits"""
+    d0 = rng.randint(0, 99)
+    ws = {"targets": {}, "aliases": {}, "links": {},
+          "files": {"pr/data.src": "D%d\n" % d0,
+                    "pr/a.src": "#!/bin/sh\nset -e\necho \"RUN:a data=$(cat \"$GROG_WORKSPACE_ROOT/pr/data.out\")\"\n",
+                    "pr/b.src": "#!/bin/sh\necho RUN:b v0\n"}}
+    ws["targets"]["//pr:data"] = raw_target("pr", "data", ["data.src"], [], ["data.out"], "cp data.src data.out")
+    a = raw_target("pr", "a", ["a.src"], ["//pr:data"], [], "cp a.src a.bin")
+    a["bin"] = "a.bin"
+    a["binraw"] = True
+    bb = raw_target("pr", "b", ["b.src"], ["//pr:a"], [], "cp b.src b.bin")
+    bb["bin"] = "b.bin"
+    bb["binraw"] = True
+    ws["targets"]["//pr:a"] = a
+    ws["targets"]["//pr:b"] = bb
+    steps = []
+    cur = ws
+    ver = [0]
+
+    def run(ts):
+        steps.append({"k": "run", "targets": ts, "minimal": False})
+
+    def edit(f, c, what):
+        nonlocal cur
+        w2 = copy.deepcopy(cur)
+        w2["files"][f] = c
+        steps.append({"k": "edit", "ws": w2, "writes": [], "what": what})
+        cur = w2
+
+    def edit_b():
+        ver[0] += 1
+        edit("pr/b.src", "#!/bin/sh\necho RUN:b v%d\n" % ver[0], "content of pr/b.src")
+    both = ["//pr:a", "//pr:b"]
+    run(both)
+    for _ in range(rng.randint(3, 5)):
+        r = rng.random()
+        if r < 0.3:
+            edit("pr/data.src", "D%d\n" % rng.randint(100, 199), "content of pr/data.src")
+        elif r < 0.55:
+            edit("pr/data.src", "D%d\n" % d0, "content of pr/data.src back to the first version")
+            edit_b()
+        elif r < 0.8:
+            steps.append({"k": "edit", "ws": cur, "writes": [["pr/data.out", None], ["pr/a.bin", None], ["pr/b.bin", None]],
+                          "what": "tamper: wipe all declared outputs"})
+            if rng.random() < 0.6:
+                edit_b()
+        else:
+            edit_b()
+        run(both if rng.random() < 0.65 else [rng.choice(both)])
+    return {"ws": ws, "algo": rng.choice(["xxh3", "sha256"]), "steps": steps, "tags": ["run", "oracle-only"]}
 
 
 # ------------------------------------------------------------------------------------------------
@@ -1519,7 +1844,7 @@ def truncate(hist, nbuilds):
     out, n = [], 0
     for s in hist["steps"]:
         out.append(s)
-        if s["k"] == "build":
+        if s["k"] in ("build", "run"):
             n += 1
             if n == nbuilds:
                 break
@@ -1644,7 +1969,8 @@ def tkey(ws, l):
     """everything of a target that enters its own key (not its dependencies' outputs)"""
     t = ws["targets"][l]
     pre = t["pkg"] + "/" if t["pkg"] else ""
-    ins = [(r, ws["files"].get(pre + r)) for r in resolved_inputs(ws, l)]
+    af = all_files(ws)
+    ins = [(r, af.get(pre + r)) for r in resolved_inputs(ws, l)]
     return json.dumps([cmd_text(ws, l), ins, [(o["dir"], o["rel"]) for o in sorted_outs(t)], sorted(t.get("fp", {}).items()),
                        rdeps(ws, l), bool(t.get("nocache")), t.get("checks", [])], sort_keys=True)
 
@@ -1653,7 +1979,8 @@ def state_key(ws, l):
     """what the cache key of a dependency-free target is made of (checks and tags are not part of it)"""
     t = ws["targets"][l]
     pre = t["pkg"] + "/" if t["pkg"] else ""
-    ins = [(r, ws["files"].get(pre + r)) for r in resolved_inputs(ws, l)]
+    af = all_files(ws)
+    ins = [(r, af.get(pre + r)) for r in resolved_inputs(ws, l)]
     return json.dumps([cmd_text(ws, l), ins, [(o["dir"], o["rel"]) for o in sorted_outs(t)], sorted(t.get("fp", {}).items())], sort_keys=True)
 
 
@@ -1695,7 +2022,9 @@ def walk(hist, real):
             ws = s["ws"]
         elif s["k"] == "taint":
             tp += s["patterns"]
-        elif s["k"] == "build":
+        elif s["k"] in ("build", "run"):
+            if s["k"] == "run":
+                s = dict(s, patterns=list(s["targets"]))
             if n >= len(obs):
                 return
             rec = {"n": n, "step": s, "ws": ws, "obs": obs[n], "prev": prev, "taints_since": tp, "edits_since": es}
